@@ -475,6 +475,7 @@ def run(ctx):
     if sp is not None:
         rows = {}
         rest = {}
+        chv = lambda cst: cst.get("v") if isinstance(cst.get("v"), str) else (cst.get("ch") if isinstance(cst.get("ch"), str) else (chr(cst["v"]) if isinstance(cst.get("v"), int) and not isinstance(cst.get("v"), bool) and cst.get("k") == "char" else None))
         for b in sp.reachable():
             for s in sp.blocks[b].stmts:
                 if s.lhs is not None and s.lhs.is_local() and s.lhs.local == 0 and s.rv is not None and s.rv.k == "agg" and s.rv.j.get("ak") == "tuple":
@@ -485,9 +486,22 @@ def run(ctx):
                     for gd in gs:
                         if isinstance(gd["labels"], list) and gd["pred"].strip().k in ("field", "variant", "var", "call") and all(isinstance(x, int) for x in gd["labels"]) and sp.blocks[gd["bb"]].term.j.get("discr_ty") == "char":
                             ch = "".join(chr(x) for x in gd["labels"])
+                    if ch is None:
+                        # the same decision spelled `pattern.strip_prefix('-')` / `starts_with('-')`
+                        for at in prim.norm_guards(gs):
+                            a_ = at["a"].strip()
+                            cs_ = [cn for cn in a_.call_nodes() if cn.a["name"] in ("strip_prefix", "starts_with") and any(y.k == "arg" for y in cn.walk())]
+                            chv = lambda cst: cst.get("v") if isinstance(cst.get("v"), str) else (cst.get("ch") if isinstance(cst.get("ch"), str) else (chr(cst["v"]) if isinstance(cst.get("v"), int) and not isinstance(cst.get("v"), bool) and cst.get("k") == "char" else None))
+                            lit_ = [chv(cst) for cn in cs_ for cst in cn.consts() if chv(cst) is not None and len(chv(cst)) == 1]
+                            if len(cs_) == 1 and len(lit_) == 1:
+                                holds = (a_.k == "discr" and at["rel"] == "eq" and at["b"].strip().a.get("v") == 1) or (a_.k == "call" and at["rel"] == "eq" and at["b"].strip().a.get("v") is True)
+                                if holds:
+                                    ch = lit_[0]
                     key = ch if ch is not None else "other"
                     rows[key] = str(co.a).split("::")[-1] if co.k == "agg" else co.fmt()
-                    rest[key] = "rest" if any(c.a["name"] == "as_str" for c in ro.call_nodes()) else ("whole" if ro.strip().k == "arg" else ro.fmt())
+                    is_rest = any(c.a["name"] == "as_str" for c in ro.call_nodes()) or \
+                        (any(c.a["name"] == "strip_prefix" and ch is not None and ch in [chv(cst) for cst in c.consts()] for c in ro.call_nodes()) and any(y.k == "variant" and str(y.a) == "Some" for y in ro.walk()))
+                    rest[key] = "rest" if is_rest else ("whole" if ro.strip().k == "arg" else ro.fmt())
         ctx.ob("R4", "perm-prefix-table", rows == {"-": "AtLeast", "/": "AnyOf", "other": "Exact"}, "-perm prefix -> comparison: %s; oracle '-' all-of, '/' any-of, otherwise exact" % rows, fn=sp, how="char dispatch table")
         ctx.ob("R4", "perm-prefix-rest", rest == {"-": "rest", "/": "rest", "other": "whole"}, "MODE text after the prefix: %s; oracle: the remainder after '-' or '/', the whole operand otherwise" % rest, fn=sp, how="provenance slice")
     mb = ctx.fn("R4", M + "perm::ComparisonType::mode_bits_match")
@@ -535,7 +549,30 @@ def run(ctx):
         for b, t in pmode.calls():
             if (t.callee or "").split("::<")[0] == "uucore::mode::parse_numeric":
                 atoms = prim.norm_guards(prim.dominating_guards(pmode, b))
-                strict = any(at["rel"] == "eq" and at["a"].strip().k == "call" and at["a"].strip().a["name"] == "all" and at["b"].strip().a.get("v") is True for at in atoms if at["b"].strip().k == "const")
+                def _pol(cf_):
+                    """+1: the closure returns is_digit(..), -1: its negation, 0: something else"""
+                    r_ = prim.origin_of_local(cf_, 0).strip()
+                    if r_.k == "call" and r_.a["name"] == "is_digit":
+                        return 1
+                    if r_.k == "un" and r_.a == "Not" and r_.kids and r_.kids[0].strip().k == "call" and r_.kids[0].strip().a["name"] == "is_digit":
+                        return -1
+                    return 0
+                def _clo(o_):
+                    m_ = [x for x in o_.walk() if x.k == "agg" and str(x.a).startswith("closure:")]
+                    return prog.fns.get(str(m_[0].a).split(":", 1)[1]) if len(m_) == 1 else None
+                strict = False
+                for at in atoms:
+                    a_ = at["a"].strip()
+                    if at["b"].strip().k != "const" or a_.k != "call" or a_.a["name"] not in ("all", "any") or not any(cn.a["name"] in ("chars", "bytes") for cn in a_.call_nodes()):
+                        continue
+                    cf_ = _clo(a_)
+                    if cf_ is None:
+                        continue
+                    holds = (at["rel"] == "eq" and at["b"].strip().a.get("v") is True) or (at["rel"] == "ne" and at["b"].strip().a.get("v") is False)
+                    fails = (at["rel"] == "ne" and at["b"].strip().a.get("v") is True) or (at["rel"] == "eq" and at["b"].strip().a.get("v") is False)
+                    # every character is a digit: all(is_digit) holds, or any(!is_digit) does not
+                    if (a_.a["name"] == "all" and holds and _pol(cf_) == 1) or (a_.a["name"] == "any" and fails and _pol(cf_) == -1):
+                        strict = True
                 cl = [cf for cf in prog.closures_of(pmode) if any(tt.j.get("callee_name") == "is_digit" for _, tt in cf.calls())]
                 radix_ok = False
                 for cf in cl:
@@ -544,6 +581,21 @@ def run(ctx):
                             r = prim.origin_of_operand(cf, tt.args[1]).strip()
                             radix_ok = r.k == "const" and r.a.get("v") == 8
                 ctx.ob("R4", "numeric-mode-is-octal-digits", strict and radix_ok, "parse_numeric is reached under %s; oracle: only when every character of the operand is an octal digit (`+600`, ' 600', '- 7' are not modes)" % prim.guards_fmt([a["gd"] for a in atoms])[:200], fn=pmode, where=prim.site(pmode, b), how="dominating guard + closure")
+        fold_init = {}
+        for b, t in pmode.calls():
+            if t.j.get("callee_name") in ("fold", "try_fold") and len(t.args) == 3:
+                clo_ = [x for x in prim.origin_of_operand(pmode, t.args[2]).walk() if x.k == "agg" and str(x.a).startswith("closure:")]
+                if len(clo_) == 1:
+                    fold_init[str(clo_[0].a).split(":", 1)[1]] = prim.origin_of_operand(pmode, t.args[1]).strip()
+        in_closures = [(cf_, b_, t_) for cf_ in prog.closures_of(pmode) for b_, t_ in cf_.calls() if (t_.callee or "").split("::<")[0] == "uucore::mode::parse_symbolic"]
+        for cf_, b_, t_ in in_closures:
+            # `clauses.try_fold(0, |mode, clause| parse_symbolic(mode, clause, 0, for_dir))`: the loop written as a fold
+            um = prim.origin_of_operand(cf_, t_.args[2]).strip()
+            ctx.ob("R4", "symbolic-umask-zero", um.k == "const" and um.a.get("v") == 0, "parse_symbolic is given umask %s; find's MODE is not subject to the process umask (constant 0)" % um.fmt(), fn=cf_, where=prim.site(cf_, b_), how="constant argument")
+            mo = prim.origin_of_operand(cf_, t_.args[0]).strip()
+            init = fold_init.get(cf_.path)
+            ok = mo.k == "arg" and mo.a.get("idx") == 2 and init is not None and init.k == "const" and init.a.get("v") == 0
+            ctx.ob("R4", "symbolic-accumulates", ok, "parse_symbolic starts from %s (fold initial value %s); clauses separated by ',' accumulate from 0" % (mo.fmt(), init.fmt() if init is not None else None), fn=cf_, where=prim.site(cf_, b_), how="provenance slice", nontrivial=False)
         for b, t in pmode.calls():
             c = (t.callee or "").split("::<")[0]
             if c == "uucore::mode::parse_symbolic":
@@ -560,4 +612,6 @@ def run(ctx):
         for l in mode_l:
             for bb, v in prim.const_assigns_to(pmode, l):
                 inits.append(v)
+        if not inits and in_closures:
+            inits = [fold_init[cf_.path].a.get("v") if cf_.path in fold_init and fold_init[cf_.path].k == "const" else "?" for cf_, _, _ in in_closures]
         ctx.ob("R4", "symbolic-initial-zero", all(v == 0 for v in inits) and bool(inits), "symbolic accumulation starts at %s" % inits, fn=pmode, how="local writers", nontrivial=False)
